@@ -8,7 +8,7 @@ EXPLANATION = (
     "Semantic preservation of a seven-pass compiler is NOT decided (it quantifies over the values programs compute). Decided, "
     "on every arm of every pass of /repo's current source: R01.2 pass totality - each IR-to-IR pass and each IR walker matches its "
     "input enum without a catch-all arm (rustc then proves every node kind is handled), the anchor passes must be found with full "
-    "coverage; R01.3 no child dropped - in those functions no arm skips (`..`, `_`, unused binding) a field that carries "
+    "coverage; R01.3 no child dropped - in every discovered traversal of an IR enum (passes, walkers, analyses and the pretty printers that produce the emitted text; type getters excepted) no arm skips (`..`, `_`, unused binding) a field that carries "
     "sub-terms, unless the arm diverges, returns a constant, re-dispatches the whole node or is a ledger entry; R01.4 field "
     "homomorphism - where an arm rebuilds the same-named variant, the value stored in child field g derives (def-use through "
     "lets, continuation parameters, iterator closures) from the input's field g and not from a sibling field (swapped "
@@ -37,6 +37,9 @@ CATCH_LEDGER = {
 
 # (function, variant, field) whose child is legitimately not translated in that arm
 CHILD_LEDGER = {
+    ("go_type_name", "TFunc", "params"): "flat name printer, lossy by design; the structured printer go_type_doc handles every type-carrying former (C02 R02.3)",
+    ("go_type_name", "TFunc", "ret_ty"): "flat name printer (see params)",
+    ("go_type_name", "TStruct", "fields"): "struct types are printed by name; their fields are printed by the declaration",
     ("compile_cexpr_effect", "*", "*"): "statement-position evaluation of a value form: its operands are ANF immediates (variables/constants) "
                                         "with no effect; calls, go and control flow have their own arms (division is C09's known finding)",
 }
@@ -114,10 +117,9 @@ def r01_3(run, model, trs):
     run.rule("R01.3", "no arm of a pass drops a sub-term: every field of the matched variant that carries sub-terms is bound and used "
                       "(or the arm diverges / yields a constant / passes the whole node on / is a ledger entry)")
     n = 0
-    anchors = {(a[1], a[2]) for a in ANCHORS}
     for t in trs:
-        if (t.fn.name, t.enum_name) not in anchors:
-            continue
+        if t.enum_name == "Ty":
+            continue  # type traversals are audited by C07 R07.2 / C03
         ret = t.fn.node.get("ret") or ""
         if TYPE_RET.match(ret.replace(" ", "")):
             continue
@@ -275,7 +277,7 @@ def r01_1(run, model):
 
 
 def run(run, model):
-    trs = P.discover(model)
+    trs = P.discover(model, include_pprint=True)
     run.anchor("IR traversals discovered", f"{len(trs)} (function, enum) matches with >=5 explicit variants")
     run.try_rule(r01_2, model, trs)
     run.try_rule(r01_3, model, trs)
